@@ -4,7 +4,7 @@ import itertools
 from .. import shapes as S
 from ..core import Case
 from .common import place, CTX
-from .c02 import assignments
+from .c02 import assignments, assignments_k, WIDE
 
 CFGS = {'C': 'Clone', 'CC': 'Copy, Clone', 'CC2': 'Clone, Copy'}
 
@@ -92,6 +92,11 @@ def generate(tier):
             alph = 'o' if (sh.kind == 'struct' and cfg != 'C') else 'om'
             for assign in assignments(sh, alph):
                 cases.append(build(sh, assign, cfg))
+    for sh in WIDE:
+        for cfg in CFGS:
+            alph = 'o' if (sh.kind == 'struct' and cfg != 'C') else 'om'
+            for assign in assignments_k(sh, alph, 2 if tier == 'quick' else 3):
+                cases.append(build(sh, assign, cfg))
     # unions (fields must be Copy; only `Copy, Clone` is documented)
     for n in (1, 2, 3):
         sh = S.Shape('union', [S.Fields('n', n)])
@@ -111,7 +116,7 @@ def generate(tier):
     return out
 
 
-RULE = ('every struct/enum shape within the bound x {own Clone, method} per field x {Clone; Copy, Clone; Clone, Copy} '
+RULE = ('wide shapes (5-6 fields, 5-6 variants) with at most 2 (thorough 3) method fields; every struct/enum shape within the bound x {own Clone, method} per field x {Clone; Copy, Clone; Clone, Copy} '
         '(+ unions with Copy, Clone) x attribute contexts; fields are an instrumented Copy type whose Clone marks its result '
         'and counts calls, the custom method marks differently; per program clone() of every value (variant, values, marks, '
         'exact call counts, source untouched) and a.clone_from(&b) for every ordered pair (result equals the modelled '
